@@ -32,6 +32,7 @@ type lifePool struct {
 	updates     int64
 	gate        chan struct{} // when set, Connect announces itself on entered and waits for the gate
 	entered     chan struct{}
+	updateDelay time.Duration // how long the pool takes to answer a keep-alive
 }
 
 func (p *lifePool) Host(ctx context.Context, r pool.HostRequest) (*pool.HostResponse, error) {
@@ -60,6 +61,12 @@ func (p *lifePool) Connect(ctx context.Context, r pool.ConnectRequest) (*pool.Co
 }
 func (p *lifePool) Update(ctx context.Context, r pool.UpdateRequest) (*pool.UpdateResponse, error) {
 	atomic.AddInt64(&p.updates, 1)
+	p.mu.Lock()
+	delay := p.updateDelay
+	p.mu.Unlock()
+	if delay > 0 {
+		time.Sleep(delay)
+	}
 	p.mu.Lock()
 	defer p.mu.Unlock()
 	if p.updateFail {
@@ -486,6 +493,37 @@ func c20CLI(ctx *Ctx, i int) {
 	ctx.Emit(Case{I: i, Kind: "command-line", Coq: coq, Desc: map[string]interface{}{"tries": obs, "min": minI, "max": maxI}, Monitor: mon})
 }
 
+// c20Cadence: the keep-alive period is the configured interval, also when the pool takes most of
+// an interval to answer each keep-alive (a slow link, a busy pool): the command-line bound keeps
+// a node active only if "every interval" means from tick to tick, not from answer to next send.
+func c20Cadence(ctx *Ctx, i int) {
+	const interval = 200 * time.Millisecond
+	node := &recNode{kind: ethnode.Geth, connFail: -1}
+	lp := &lifePool{}
+	a := &agent.Agent{EthNode: node, UpdateInterval: interval, NumHosts: 0}
+	var mon []string
+	if err := a.Start(lp); err != nil {
+		fatal("start: %v", err)
+	}
+	lp.mu.Lock()
+	lp.updateDelay = interval * 9 / 10
+	lp.mu.Unlock()
+	start := atomic.LoadInt64(&lp.updates)
+	t0 := time.Now()
+	time.Sleep(16 * interval)
+	sent := atomic.LoadInt64(&lp.updates) - start
+	intervals := float64(time.Since(t0)) / float64(interval)
+	lp.mu.Lock()
+	lp.updateDelay = 0
+	lp.mu.Unlock()
+	a.Stop()
+	a.Wait()
+	if float64(sent) < 0.72*intervals {
+		mon = append(mon, fmt.Sprintf("c20-keepalive-period: with --update-interval %s and a pool that answers each keep-alive after %s, %d keep-alives were sent in %.1f intervals: the period is the interval plus the time the pool takes, so an accepted interval close to the expiry window no longer keeps the node active", interval, interval*9/10, sent, intervals))
+	}
+	ctx.Emit(Case{I: i, Kind: "cadence-slow-pool", Desc: map[string]interface{}{"interval_ms": 200, "answer_after_ms": 180, "keepalives": sent, "intervals": intervals}, Monitor: mon})
+}
+
 func runC20(ctx *Ctx) {
 	agent.VerifSetTimeouts(3*time.Second, 3*time.Second)
 	n := ctx.N(24, 400)
@@ -512,6 +550,9 @@ func runC20(ctx *Ctx) {
 	}
 	if ctx.Want(n + 100) {
 		c20Storm(ctx, n+100, ctx.N(400, 6000))
+	}
+	if ctx.Want(n + 101) {
+		c20Cadence(ctx, n+101)
 	}
 	if ctx.Want(n) {
 		c20CLI(ctx, n)
